@@ -304,17 +304,35 @@ func genManifestSteps(c *ctx) error {
 		return true
 	})
 	c.defStringPairs("parseV5Fields", idx)
-	var lits []string
+	// which slice of the split text feeds which local: `lock, ok := hash.MaybeParse(slices[1])` → ("lock", "slices[1]");
+	// the parsing function's name is deliberately not extracted (the proofs only use the field positions)
+	var assigns [][2]string
 	ast.Inspect(fd.Body, func(n ast.Node) bool {
-		if ce, ok := n.(*ast.CallExpr); ok {
-			nm := exprName(ce.Fun)
-			if nm == "hash.MaybeParse" || nm == "hash.Parse" || nm == "parseSpecs" {
-				lits = append(lits, nm+"("+strings.Join(strings.Fields(c.src(man_fmGo, ce.Args[0])), " ")+")")
+		as, ok := n.(*ast.AssignStmt)
+		if !ok || len(as.Rhs) != 1 || len(as.Lhs) == 0 {
+			return true
+		}
+		if ce, ok := as.Rhs[0].(*ast.CallExpr); ok && len(ce.Args) == 1 {
+			arg := strings.Join(strings.Fields(c.src(man_fmGo, ce.Args[0])), " ")
+			if strings.HasPrefix(arg, "slices[") {
+				assigns = append(assigns, [2]string{exprName(as.Lhs[0]), arg})
 			}
 		}
 		return true
 	})
-	c.defStringList("parseV5Sources", lits)
+	// a field may also be filled inline in the literal: root: hash.Parse(slices[2])
+	for _, kv := range idx {
+		if i := strings.Index(kv[1], "slices["); i >= 0 {
+			j := strings.Index(kv[1][i:], "]")
+			if j > 0 {
+				assigns = append(assigns, [2]string{kv[0], kv[1][i : i+j+1]})
+			}
+		}
+	}
+	if len(assigns) < 4 {
+		return fmt.Errorf("parseV5Manifest: cannot see which slices feed lock/root/gcGen/specs: %v", assigns)
+	}
+	c.defStringPairs("parseV5Slices", assigns)
 	c.defStringList("parseV5", c.manEvents(man_fmGo, fd, nil))
 	fd, err = c.manMustFunc(man_fmGo, "", "parseManifest")
 	if err != nil {
